@@ -4,15 +4,21 @@ Every sequence of server replies (bounded length) to the handshake of a real Con
 against every (protocol version, authenticator kind, compression setting, set of locally installed
 compression algorithms); each handshake request
 is held by the server, which reads what the driver pushed with the independent wire codec and
-answers from the sequence.  Oracle = the clauses of the C47 statement.
+answers from the sequence.  A failed handshake is continued with what can still happen to the dead
+connection before Connection.factory looks at it (rest of the same read, socket error, disconnect).
+Schedule layer: the connecting thread (Connection.factory + first request) against the reactor
+thread that delivers the replies, every schedule with a bounded number of preemptions.
+Oracle = the clauses of the C47 statement.
 """
 from vt.core import Part, HarnessError
 from vt import connlib
+from vt import sched
 
 META = {
     'level': 'model_checking',
-    'engine': 'E',
-    'technique': 'exhaustive enumeration of bounded server reply sequences x configurations on the real Connection handshake handlers',
+    'engine': 'E+S',
+    'technique': 'exhaustive enumeration of bounded server reply sequences (continued past the fatal reply) x configurations on the real '
+                 'Connection handshake handlers, plus preemption-bounded schedule enumeration (reactor thread vs connecting thread)',
     'text': 'For protocol versions {1,2,3,4,5,6(beta),DSE_V1,DSE_V2} x authenticator {none, PlainTextAuthenticator, v1 credentials '
             'dict} x (compression setting, locally installed algorithms) in {True, "lz4", "snappy"} x {{lz4}, {snappy}, {lz4,snappy}} + '
             '(True, {}) + (False, {lz4,snappy}) the tree of all reply sequences of length <= 5 (thorough 7) over '
@@ -26,7 +32,20 @@ META = {
             'server accepted STARTUP is an uncompressed plain frame; later frames are compressed only with the algorithm announced '
             'in STARTUP, which must be in SUPPORTED and locally available; after acceptance outgoing data are v5 segments of the '
             'negotiated form iff the version is v5/v6 (never for v1-v4, DSE_V1, DSE_V2); the lz4 segment form is used iff STARTUP announced '
-            'lz4.  A probe request is sent on every ready connection and must go out readable in that form.',
+            'lz4.  A probe request is sent on every ready connection and must go out readable in that form.  '
+            'Aftermath: a failed handshake is continued, before the thread waiting in Connection.factory runs again, with every sequence '
+            'of <= 1 (thorough 2) events of {further bytes in the same read as the fatal reply: non-protocol bytes / an undecodable '
+            'frame on stream -1; socket error; server disconnect} (one failed handshake per distinct canonical state, fatal reply and '
+            'request answered); the authentication clause is judged on the first fatal cause.  '
+            'Schedule layer (engine S): a connecting thread (Connection.factory, then one request on the connection it got) runs '
+            'against a reactor thread that delivers SUPPORTED and then READY | AUTHENTICATE, AUTH_SUCCESS | AUTHENTICATE, bad-credentials '
+            'ERROR | AUTHENTICATE without an authenticator (thorough: also a challenge round, READY to a configured authenticator, '
+            'socket error, server error, v1 credentials) for versions {3,4,5,6,DSE_V1,DSE_V2} (thorough: v2-DSE_V2, v1 credentials) x {no compression, lz4 negotiated}: every '
+            'schedule with <= 1 preemption (thorough: <= 2 for v4/v5; all non-preemptive orders included) is enumerated, scheduling '
+            'points = every virtual lock / event operation and every source line of _handle_options_response, _handle_startup_response, '
+            '_handle_auth_response, _enable_compression, _enable_checksumming, send_msg, defunct, factory; the same clauses are judged '
+            'on what the server received, so the first request of the thread released by connected_event must already use the '
+            'framing / compression the handshake established.',
     'note': 'VConnection.close() follows the contract shared by the asyncio, twisted, gevent and eventlet reactors.  lz4 is the '
             'pure-python stub of /verif/stubs; snappy is a stand-in codec writing valid literal-only snappy streams; the set of '
             'locally installed algorithms is what cassandra.connection.locally_supported_compressions (and segment_codec_lz4, None '
@@ -319,12 +338,12 @@ class Run(object):
         except Exception as e:
             self.exc = e
 
-    def finish(self):
+    def finish(self, strict=True):
         if self.conn is None:
             self.conn = self.w.conns[0]
         if self.returned is not None and self.returned is not self.conn:
             raise HarnessError('factory returned another connection')
-        if self.queue:
+        if self.queue and strict:
             raise HarnessError('replies %r were generated after the handshake had ended' % (self.queue,))
         if self.snapshot is None:
             self.snapshot = self.observe()
@@ -455,20 +474,23 @@ def local_algorithms():
     return set(cc.locally_supported_compressions.keys())
 
 
-def case_of(run, seq):
-    return {'version': run.version, 'auth': run.auth, 'compression': run.compression, 'local': list(run.local), 'replies': list(seq)}
+def case_of(run, seq, extra=None):
+    case = {'version': run.version, 'auth': run.auth, 'compression': run.compression, 'local': list(run.local), 'replies': list(seq)}
+    case.update(extra or {})
+    return case
 
 
-def judge(run, part, cfg, seq):
-    """all clauses, evaluated in the state reached by seq"""
+def judge(run, part, cfg, seq, extra=None, layer=''):
+    """all clauses, evaluated in the state reached by seq (layer 'sched/': at the end of one schedule of the schedule layer;
+    extra: what replay() needs besides the configuration and the replies)"""
     from cassandra import AuthenticationFailed
     conn, st = run.conn, run.conn.server_state
     v = run.version
-    case = case_of(run, seq)
+    case = case_of(run, seq, extra)
     cfgs = 'v%s' % VNAMES.get(v, v)
 
     def viol(fp, what):
-        part.violation(fp, '%s; case %r' % (what, case), case)
+        part.violation(fp.replace('C47/', 'C47/' + layer, 1), '%s; case %r' % (what, case), case)
 
     hist = run.history
     snap = run.snapshot
@@ -564,36 +586,52 @@ def play(cfg, seq):
     return Run(cfg, seq)
 
 
-def probe(run, part, cfg, seq):
-    """a ready connection really works: one request goes out in the negotiated form"""
+PROBE_QUERY = 'SELECT * FROM ks.tbl WHERE k = 0 AND c = 0 ' * 4
+
+
+def send_probe(run):
+    """what the owner of a connection reported ready does first: one request"""
     from cassandra.protocol import QueryMessage
     conn = run.conn
-    got = []
     with conn.lock:
         rid = conn.get_request_id()
-    q = 'SELECT * FROM ks.tbl WHERE k = 0 AND c = 0 ' * 4
-    case = dict(case_of(run, seq), probe=True)
-    cfgs = 'v%s' % VNAMES.get(run.version, run.version)
-    npush = len(conn.server_state['out'])
+    sent = {'npush': len(conn.server_state['out']), 'exc': None}
     try:
-        conn.send_msg(QueryMessage(q, 1), rid, got.append)
+        conn.send_msg(QueryMessage(PROBE_QUERY, 1), rid, [].append)
     except Exception as e:
-        part.violation('C47/ready-but-cannot-send/%s/%s' % (type(e).__name__, cfgs),
-                       'the connection was reported ready but sending a request on it raises %r; case %r' % (e, case), case)
+        sent['exc'] = e
+    return sent
+
+
+def judge_probe(run, part, cfg, seq, sent, extra=None, layer=''):
+    """a ready connection really works: the request went out in the negotiated form"""
+    conn = run.conn
+    case = dict(case_of(run, seq, extra), probe=True)
+    cfgs = 'v%s' % VNAMES.get(run.version, run.version)
+    npush = sent['npush']
+
+    def viol(fp, what):
+        part.violation(fp.replace('C47/', 'C47/' + layer, 1), '%s; case %r' % (what, case), case)
+    if sent['exc'] is not None:
+        viol('C47/ready-but-cannot-send/%s/%s' % (type(sent['exc']).__name__, cfgs),
+             'the connection was reported ready but sending a request on it raises %r' % (sent['exc'],))
         return
     if len(conn.server_state['out']) != npush + 1:
-        part.violation('C47/probe-not-pushed/%s' % cfgs, 'send_msg on the ready connection pushed %d units; case %r'
-                       % (len(conn.server_state['out']) - npush, case), case)
+        viol('C47/probe-not-pushed/%s' % cfgs, 'send_msg on the ready connection pushed %d units' % (len(conn.server_state['out']) - npush))
         return
     last = conn.server_state['out'][-1]
     fr = last['frames'][-1] if last['frames'] else {}
-    if fr.get('op') != 'QUERY' or fr.get('query') != q:
-        part.violation('C47/probe-unreadable/%s' % cfgs, 'probe QUERY arrived as %r (push form %s); case %r' % (fr, last['form'], case), case)
+    if fr.get('op') != 'QUERY' or fr.get('query') != PROBE_QUERY:
+        viol('C47/probe-unreadable/%s' % cfgs, 'probe QUERY arrived as %r (push form %s)' % (fr, last['form']))
     comp = fr.get('compressed') or last['form'] == 'segments-lz4'
-    part.outcome(('ready', run.version, run.auth, repr(run.compression), '+'.join(run.local) or 'none',
+    part.outcome((layer + 'ready', run.version, run.auth, repr(run.compression), '+'.join(run.local) or 'none',
                   'probe-compressed' if comp else 'probe-plain', fr.get('algorithm', '-'), last['form']))
     if comp:
         part.count('compressed_probes')
+
+
+def probe(run, part, cfg, seq):
+    judge_probe(run, part, cfg, seq, send_probe(run))
 
 
 def explore_cfg(item):
@@ -662,28 +700,191 @@ def explore_cfg(item):
     return part
 
 
+# ====================================================================== schedule layer (engine S)
+SCHED_FOCUS = ('_handle_options_response', '_handle_startup_response', '_handle_auth_response', '_enable_compression',
+               '_enable_checksumming', 'send_msg', 'defunct', 'factory')
+_FOCUS = []
+
+
+def sched_focus():
+    """code objects whose source lines are scheduling points: the handshake response handlers and what they call to switch
+    compression / segment framing on (reactor side), Connection.factory and send_msg (connecting side), defunct (both)"""
+    import cassandra.connection as cn
+    out = []
+    for n in SCHED_FOCUS:
+        f = getattr(cn.Connection, n)
+        f = getattr(f, '__func__', f)
+        f = getattr(f, '__wrapped__', f)          # defunct_on_error uses functools.wraps
+        out.append(f.__code__)
+    return out
+
+
+@sched.gc_quiet
+def sched_harness(params, prefix, part):
+    """One schedule of: a connecting thread (the real Connection.factory, then one request on the connection it returned) and a
+    reactor thread that delivers the replies of params['replies'], one per turn, as soon as the node holds a request."""
+    if not _FOCUS:
+        _FOCUS.extend(sched_focus())
+    cfg = (params['version'], params['auth'], params['compression'], tuple(params['local']))
+    seq = tuple(params['replies'])
+    run = Run(cfg, seq, connect=False)
+    try:
+        s = sched.Scheduler(prefix, focus=_FOCUS, horizon=20000, clock=run.w.clock)
+        info = {'reactor_done': False, 'sent': None, 'overlap': False}
+
+        def connecting():
+            run.connect()
+            if run.returned is not None:
+                run.conn = run.returned
+                info['overlap'] = not info['reactor_done']
+                info['sent'] = send_probe(run)
+
+        def has_work():
+            if not run.w.conns:
+                return False
+            c = run.w.conns[0]
+            return not run.queue or c.is_closed or c.is_defunct or run.queue[0] in OOB or any(not p.answered for p in run.srv.pending)
+
+        def reactor():
+            s.current.waiting = None
+            try:
+                while run.queue:
+                    if not has_work():
+                        s.block(has_work, None, 'reactor idle')
+                    run.conn = run.w.conns[0]
+                    if run.is_failed():
+                        break
+                    run.step()
+            finally:
+                info['reactor_done'] = True
+
+        s.spawn(connecting, 'connecting')
+        s.spawn(reactor, 'reactor').waiting = has_work       # born waiting: nothing to deliver before the first request
+        s.run()
+        extra = {'prefix': s.choices()}
+        tag = '%s/%s' % ('v%s' % VNAMES.get(run.version, run.version), '-'.join(seq))
+        part.count('sched_executions')
+        part.count('executions')
+        part.count('evaluations')
+        part.count('sched_steps', s.steps)
+        if s.failure:
+            part.violation('C47/sched/%s/%s' % (s.failure[0], tag), '%s; case %r' % (s.failure[1], case_of(run, seq, extra)),
+                           case_of(run, seq, extra))
+            return s
+        for t in s.threads:
+            if t.exc is not None:
+                raise HarnessError('%r in virtual thread %s of case %r\n%s' % (t.exc, t.name, case_of(run, seq, extra), getattr(t, 'exc_tb', '')))
+        run.finish(strict=False)
+        judge(run, part, cfg, seq, extra, 'sched/')
+        if info['sent'] is not None:
+            judge_probe(run, part, cfg, seq, info['sent'], extra, 'sched/')
+        if info['overlap']:
+            part.count('sched_probe_overlaps_handler')
+        part.outcome(('sched', tag, run.auth, repr(run.compression), 'returned' if run.returned is not None else type(run.exc).__name__,
+                      'request sent while the reactor was still in the handler' if info['overlap'] else '-'))
+        if any(p.chosen for p in s.trace):
+            part.count('distinct_nontrivial')          # every (scenario, schedule) is visited once
+            if info['overlap']:
+                part.sample(dict(case_of(run, seq, extra), layer='sched', request_sent_inside_handler=True), limit=1)
+        s.overlap = info['overlap']
+        return s
+    finally:
+        run.close()
+
+
+def sched_cases(thorough):
+    """(scenario, preemption bound): versions x {no compression, lz4 negotiated} x reply scripts (READY; AUTHENTICATE +
+    AUTH_SUCCESS; bad credentials; authentication required but no authenticator configured; thorough: more)"""
+    scripts = [('none', ('READY',)), ('sasl', ('AUTHENTICATE', 'AUTH_SUCCESS')), ('sasl', ('AUTHENTICATE', 'ERR_BADCRED')),
+               ('none', ('AUTHENTICATE',))]
+    versions = [3, 4, 5, 6, 0x41, 0x42]
+    if thorough:
+        scripts += [('sasl', ('AUTHENTICATE', 'CHALLENGE', 'AUTH_SUCCESS')), ('sasl', ('READY',)), ('sasl', ('AUTHENTICATE', 'SOCKERR')),
+                    ('none', ('ERR_SERVER',))]
+        versions = [2, 3, 4, 5, 6, 0x41, 0x42]
+    comps = ((False, 'SUP[]'), (True, 'SUP[lz4,snappy]'))
+    out = []
+    for v in versions:
+        for comp, sup in comps:
+            for auth, tail in scripts:
+                out.append(({'version': v, 'auth': auth, 'compression': comp, 'local': ['lz4', 'snappy'], 'replies': [sup] + list(tail)},
+                            2 if thorough and v in (4, 5) else 1))         # thorough: two preemptions for v4 / v5
+    if thorough:
+        for comp, sup in comps:
+            out.append(({'version': 1, 'auth': 'dict', 'compression': comp, 'local': ['lz4', 'snappy'],
+                         'replies': [sup, 'AUTHENTICATE', 'READY']}, 1))
+    return out
+
+
+def sched_scenario(item):
+    """every schedule of one scenario with at most `bound` preemptions (all non-preemptive orders included)"""
+    connlib.quiet_driver_logs()
+    params, bound = item
+    part = Part()
+    frontier = [[]]
+    overlaps = 0
+    expect_ready = params['replies'][-1] in ('READY', 'AUTH_SUCCESS')
+    while frontier:
+        nxt = []
+        for prefix in frontier:
+            s = sched_harness(params, prefix, part)
+            overlaps += bool(getattr(s, 'overlap', False))
+            nxt.extend(k for k, _ in sched.children(s.trace, len(prefix), bound))
+        frontier = nxt
+    if expect_ready and bound >= 1 and not overlaps and not part.violations:
+        raise HarnessError('vacuous: in no schedule of %r did the connecting thread send its request before the reactor thread had '
+                           'left the handshake handler' % (params,))
+    return part
+
+
+def run_sched(ctx):
+    jobs = ctx.rotate(sched_cases(ctx.thorough))
+    for part in ctx.pmap(sched_scenario, jobs):
+        ctx.merge(part)
+    ctx.cov.setdefault('harnesses', {})['c47-sched'] = {'scenarios': len(jobs), 'preemption_bounds': sorted(set(b for _, b in jobs)),
+                                                         'executions': ctx.counters.get('sched_executions', 0), 'complete': True}
+    return jobs
+
+
 def run(ctx):
     connlib.quiet_driver_logs()
     if local_algorithms() != {'lz4'}:
         raise HarnessError('expected exactly the lz4 stub to be importable by the driver, got %r' % (local_algorithms(),))
     selftest()
     maxlen = 5 if ctx.quick else 7
+    maxafter = 1 if ctx.quick else 2
     cfgs = [(v, a, c, l) for v in VERSIONS for a in AUTHS for c, l in COMP_LOCAL]
     connlib.before_fork()
-    for part in ctx.pmap(explore_cfg, [(c, maxlen) for c in ctx.rotate(cfgs)]):
+    for part in ctx.pmap(explore_cfg, [(c, maxlen, maxafter) for c in ctx.rotate(cfgs)]):
         ctx.merge(part)
+    jobs = run_sched(ctx)
     ctx.cov['rule'] = ('%d configurations (versions %s x authenticators %s x (compression setting, locally installed algorithms) %s) '
                        'x every reply sequence of length <= %d '
-                       'over %d reply kinds (a sequence ends early when the connection is ready or failed); states = distinct '
-                       '(configuration, connection flags, outstanding handshake requests, negotiated forms); non-trivial = '
-                       'maximal sequences containing an AUTHENTICATE / AUTH_CHALLENGE / EVENT, and ready connections whose probe '
-                       'request went out compressed' % (len(cfgs), list(VERSIONS), list(AUTHS), [(c, '+'.join(l) or 'none') for c, l in COMP_LOCAL], maxlen, len(REPLIES)))
+                       'over %d reply kinds (a sequence ends early when the connection is ready or failed), plus %d aftermath executions: '
+                       'every sequence of <= %d events of %s appended to one failed handshake per distinct (configuration, canonical '
+                       'state of the failed connection, fatal reply, request it answered); plus %d schedule-layer executions = every '
+                       'schedule with <= 1 preemption (%d scenarios, <= 2 for %d of them) (connecting thread vs reactor thread; %d executions send the first '
+                       'request while the reactor thread is still inside the handshake handler); states = distinct '
+                       '(configuration, connection flags, outstanding handshake requests, negotiated forms) of the sequential layer; '
+                       'sched_steps = scheduling points passed; non-trivial = '
+                       'maximal sequences containing an AUTHENTICATE / AUTH_CHALLENGE / EVENT, aftermath executions, schedules with at '
+                       'least one non-default choice, and ready connections whose probe '
+                       'request went out compressed' % (len(cfgs), list(VERSIONS), list(AUTHS), [(c, '+'.join(l) or 'none') for c, l in COMP_LOCAL], maxlen, len(REPLIES),
+                                                        ctx.counters.get('aftermath_executions', 0), maxafter, list(AFTERMATH),
+                                                        ctx.counters.get('sched_executions', 0), len(jobs), len([1 for _, b in jobs if b == 2]),
+                                                        ctx.counters.get('sched_probe_overlaps_handler', 0)))
     ctx.cov['exhaustive'] = True
     ctx.assume('replies answer the oldest outstanding handshake request with its stream id; replies on unknown stream ids are not generated')
     ctx.assume('server replies after STARTUP acceptance on v<=4/DSE are sent uncompressed (allowed by the protocol)')
     ctx.assume('the locally installed compression libraries are represented by the entries of '
                'cassandra.connection.locally_supported_compressions (lz4: stub package; snappy: literal-only stand-in) and '
                'segment_codec_lz4 (None when lz4 is not installed)')
+    ctx.assume('aftermath: after the first fatal reply / event nothing is read from the socket any more (every reactor stops reading a '
+               'closed connection), so the only later inputs are the rest of the read that carried the fatal reply, a socket error '
+               'reported by the reactor and the peer closing; they happen before the thread waiting in Connection.factory runs again')
+    ctx.assume('schedule layer: line-level atomicity of CPython statements; scheduling points = every source line of %s and every '
+               'virtual lock / event operation; the reactor delivers one reply per turn; the connect timeout does not expire while '
+               'a thread can run' % (list(SCHED_FOCUS),))
     ctx.assume('errors in reply to AUTH_RESPONSE/CREDENTIALS other than bad-credentials, a bad-credentials error to OPTIONS/STARTUP, '
                'an authenticator rejecting a challenge, and a v1 credentials dict used on v2+ may surface as either error class')
 
@@ -693,6 +894,22 @@ def replay(ctx, data):
     part = Part()
     cfg = (data['version'], data['auth'], data['compression'], tuple(data.get('local', ('lz4',))))
     seq = tuple(r for r in data['replies'] if r != '<probe>')
+    if 'prefix' in data:
+        params = {'version': data['version'], 'auth': data['auth'], 'compression': data['compression'],
+                  'local': list(data.get('local', ('lz4',))), 'replies': list(seq)}
+        sched_harness(params, data['prefix'], part)
+        for fp, what, _ in part.violations:
+            print(fp, '::', what[:400])
+        return bool(part.violations)
+    first = next((i for i, r in enumerate(seq) if r in SAME_READ), None)
+    if first is not None:
+        # bytes "in the same read" are defined only after the reply that killed the connection
+        head = play(cfg, seq[:first])
+        try:
+            if not (first and head.failed() and head.fatal == len(head.history) - 1):
+                raise HarnessError('%r: same-read continuation of a reply that is not fatal' % (seq,))
+        finally:
+            head.close()
     run = play(cfg, seq)
     try:
         judge(run, part, cfg, seq)
